@@ -410,6 +410,18 @@ def c10_trainer_update_applies_updaters():
     return abs(w1 - (w0 + 0.25)) < 1e-6, f"weight {w0} -> {w1} after trainer.update() with a pending +0.25"
 
 
+def c20_integer_support_truncates_parameters():
+    """C20: the probability mass at integer counts does not depend on the dtype the counts are given in."""
+    from inferno.stats import Poisson, Normal
+    k = torch.arange(6)
+    a = Poisson.pmf(k, 2.5)
+    b = Poisson.pmf(k.double(), 2.5)
+    c = Normal.pdf(torch.arange(3), 0.5, 1.5)
+    d = Normal.pdf(torch.arange(3).double(), 0.5, 1.5)
+    ok = torch.allclose(a.double(), b, rtol=1e-5) and torch.allclose(c.double(), d, rtol=1e-5)
+    return ok, f"Poisson.pmf(arange(6), 2.5) = {[round(float(x), 4) for x in a]} but with float counts {[round(float(x), 4) for x in b]} (the rate was truncated to 2)"
+
+
 def c20_lognormal_logcdf():
     """C20: log-CDF equals log of the CDF."""
     try:
